@@ -172,7 +172,7 @@ def attach_writer_monitors():
         if exc is not None:
             hooks.events.append(("compile-raised", tag, type(exc).__name__))
             return
-        if tag in ("GSUB", "GPOS") and isinstance(res, (bytes, bytearray)):
+        if tag in ("GSUB", "GPOS", "GDEF") and isinstance(res, (bytes, bytearray)):
             hooks.count("reparse")
             try:
                 stats = otlref.walk_layout(res, tag)
@@ -278,13 +278,16 @@ SPEC_QUICK = [
     ("class_kern", 0, "F", [0, 1, 5, 9]), ("class_kern", 0, "N", [3]), ("zero_row_shadow", 0, "F", [0, 1, 5, 9]), ("mixed", 0, "FNT", [0, 5]),
     ("kern_pairs", 0, "F", [0, 9]), ("class0_column", 0, "F", [0, 1, 5, 9]), ("class0_column", 1, "N", [0, 5]),
     ("permuted", 0, "FNT", [0]), ("permuted", 1, "FN", [0]),
+    ("devices", 0, "FNT", [0]), ("devices", 0, "F", [1, 5, 9]), ("devices", 0, "N", [5]),
+    ("varkern", 0, "FN", [0, 1, 5, 9]),
 ]
 SPEC_THOROUGH = [(n, s, "FNT", [0]) for n in ("kern_pairs", "class_kern", "ligatures", "multiple", "alternate", "markbase", "singlepos", "many_lookups")
                  for s in (1, 2)] + \
     [("class_kern", 0, "FNT", list(range(10))), ("zero_row_shadow", 0, "FNT", list(range(10))), ("mixed", 0, "FNT", list(range(10))),
      ("kern_pairs", 0, "FNT", list(range(10))), ("class_kern", 1, "F", [5]), ("kern_pairs", 1, "N", [5]),
      ("class0_column", 0, "FNT", list(range(10))), ("class0_column", 1, "FNT", list(range(10))),
-     ("permuted", 0, "FNT", [0, 5]), ("permuted", 1, "FNT", [0, 5])]
+     ("permuted", 0, "FNT", [0, 5]), ("permuted", 1, "FNT", [0, 5]),
+     ("devices", 0, "FNT", list(range(10))), ("varkern", 0, "FNT", list(range(10)))]
 NOPACK = [("huge_chain_format3", "FNT"), ("huge_marklig", "FN"), ("huge_ligature_set", "F")]
 
 
@@ -302,7 +305,7 @@ def cases(tier, seed):
         cs.append({"id": "fea:" + name, "kind": "fea", "name": name, "seed": seed, "reps": "FNT", "levels": [0, 5] if not T else [0, 1, 5, 9],
                    "K": 40 if T else 18})
     for name, size, reps, levels in (SPEC_THOROUGH if T else SPEC_QUICK):
-        for variant in range(2 if (T and size == 1) else 1):
+        for variant in range(2 if (T and size == 1) else 3 if (T and name in ("devices", "varkern")) else 2 if name in ("devices", "varkern") else 1):
             for r in reps:
                 for lv in levels:
                     cs.append({"id": "spec:%s:s%d:%s:c%d%s" % (name, size, r, lv, ":v%d" % variant if variant else ""), "kind": "spec",
@@ -582,42 +585,59 @@ def run_fea(case, ctx):
 
 
 # ---------------------------------------------------------------- (b) generated specs
-def _build_spec_font(m):
+def _build_spec_font(m, level=0, rep=None):
     from fontTools.ttLib import TTFont
     from vmon.gen import c06_spec as S
 
-    key = (len(m["order"]), bool(m.get("gdef")))
     f = TTFont(io.BytesIO(S.base_font(m["order"], m.get("advances_build") or m["advances"])))
     f.setGlyphOrder(list(m["order"]))
-    S.add_tables(f, m)
+    if m.get("fea"):
+        # a spec given as feature-file text on a one-axis variable font: compaction happens
+        # inside the feature compiler (PairPosBuilder) through the font's configuration
+        from fontTools.fontBuilder import addFvar
+        from fontTools.feaLib.builder import addOpenTypeFeaturesFromString
+
+        tag, lo, df, hi = m["axis"]
+        addFvar(f, [(tag, lo, df, hi, "Weight")], [])
+        f.cfg[COMP] = level
+        if rep is not None:
+            f.cfg[REP] = REPS[rep]
+        addOpenTypeFeaturesFromString(f, m["fea"])
+    else:
+        S.add_tables(f, m)
     return f
 
 
-def _spec_shape(ctx, m, texts, rep, level):
-    """build, (compact), save; -> (results or None, summary)"""
+def _spec_build(ctx, m, rep, level):
+    """build, (compact), save -> (font bytes, event summary)"""
     from fontTools.otlLib.optimize.gpos import compact
-    from vmon.gen import c06_spec as S
-    from vmon.oracle.hbft import HB
 
-    f = _build_spec_font(m)
+    del hooks.events[:]
+    f = _build_spec_font(m, level, rep)
     if m.get("new_order"):
         # everything of the layout tables is in memory and keyed by glyph name; the font now
         # gets another glyph order, so Coverage glyph lists are no longer in glyph-id order
         f.setGlyphOrder(list(m["new_order"]))
-    del hooks.events[:]
-    if level:
+    if level and not m.get("fea"):
         compact(f, level)
     f.cfg[REP] = REPS[rep]
     data = corpus.save_bytes(f)
-    summ = _events(ctx, "spec")
-    h = HB(data)
+    return data, _events(ctx, "spec")
+
+
+def _spec_shape(m, data, texts, ppem=None, loc=None):
+    from vmon.gen import c06_spec as S
+    from vmon.oracle.hbft import HB
+
+    h = HB(data, variations={m["axis"][0]: loc} if loc is not None else None)
+    h.font.ppem = (ppem, ppem) if ppem else (0, 0)
     order = m.get("new_order") or m["order"]
     idx = {g: i for i, g in enumerate(order)}
     out = []
     for t in texts:
         r = h.shape([corpus.PUA + idx[x] for x in t], {S.FEATURE: True})
         out.append([(order[g], xa, ya, xo, yo) for g, cl, xa, ya, xo, yo in r])
-    return out, summ, len(data)
+    return out
 
 
 def run_spec(case, ctx):
@@ -632,49 +652,60 @@ def run_spec(case, ctx):
         m["advances_build"] = dict(m["advances"])
         m["advances"] = {g: m["advances_build"][m["order"][i]] for i, g in enumerate(m["new_order"])}
     ref = otlref.Interp(m)
-    want, keep = [], []
-    for t in texts:
-        try:
-            want.append(ref.shape(t, {S.FEATURE: 1}))
-            keep.append(t)
-        except otlref.Undetermined:
-            ctx.skip("undetermined by the spec")
-    texts = keep
+    settings = [(p, None) for p in m.get("ppems", [None])] if not m.get("locs") else [(None, l) for l in m["locs"]]
+    if m.get("locs") and m.get("ppems"):
+        settings += [(p, l) for p in m["ppems"][1:4] for l in m["locs"][1:3]]
     try:
-        got, summ, size = _spec_shape(ctx, m, texts, case["rep"], case["level"])
+        data, summ = _spec_build(ctx, m, case["rep"], case["level"])
     except Exception as e:
         ctx.judged()
         ctx.violation(exc_mech("save", e, source="spec:" + case["name"], repacker=case["rep"], compaction=bool(case["level"])),
                       "compiling tables built from spec %s raised %s: %s" % (case["name"], type(e).__name__, str(e)[:300]), None)
         return
-    bad = fired = 0
-    ident = None
-    for t, w, g in zip(texts, want, got):
-        ctx.judged()
-        if w != [(x, m["advances"][x], 0, 0, 0) for x in t]:
-            fired += 1
-        if w != g:
-            bad += 1
-            if bad <= 2:
-                cause = "serialisation"
-                if case["level"]:
-                    # does the same spec shape correctly without compaction?
-                    try:
-                        g0, _s, _z = _spec_shape(ctx, m, [t], case["rep"], 0)
-                        if g0[0] == w:
-                            cause = "compaction"
-                    except Exception:
-                        pass
-                diff = "glyphs" if [x[0] for x in w] != [x[0] for x in g] else "advance" if [x[1:3] for x in w] != [x[1:3] for x in g] else "offset"
-                ctx.violation({"kind": "shape-mismatch", "source": "spec:" + case["name"], "cause": cause, "diff": diff},
-                              "spec %s (repacker=%s, compaction=%d): text %s shapes %s, the spec says %s"
-                              % (case["name"], REPS[case["rep"]], case["level"], t, g, w),
-                              {"spec": case["name"], "size": case["size"], "repacker": repr(REPS[case["rep"]]), "compaction": case["level"],
-                               "text": t, "spec_says": w, "harfbuzz": g, "seed": case["seed"]})
+    bad = fired = ntexts = 0
+    data0 = None
+    for ppem, loc in settings:
+        want, keep = [], []
+        for t in texts:
+            try:
+                want.append(ref.shape(t, {S.FEATURE: 1}, ppem=ppem, loc=loc))
+                keep.append(t)
+            except otlref.Undetermined:
+                ctx.skip("undetermined by the spec")
+        got = _spec_shape(m, data, keep, ppem, loc)
+        ntexts += len(keep)
+        for t, w, g in zip(keep, want, got):
+            ctx.judged()
+            if w != [(x, m["advances"][x], 0, 0, 0) for x in t]:
+                fired += 1
+            if w != g:
+                bad += 1
+                if bad <= 2:
+                    cause = "serialisation"
+                    if case["level"]:
+                        # does the same spec shape correctly without compaction?
+                        try:
+                            if data0 is None:
+                                data0, _s = _spec_build(ctx, m, case["rep"], 0)
+                            if _spec_shape(m, data0, [t], ppem, loc)[0] == w:
+                                cause = "compaction"
+                        except Exception:
+                            pass
+                    diff = "glyphs" if [x[0] for x in w] != [x[0] for x in g] else "advance" if [x[1:3] for x in w] != [x[1:3] for x in g] else "offset"
+                    ctx.violation({"kind": "shape-mismatch", "source": "spec:" + case["name"], "cause": cause, "diff": diff,
+                                   "at": "ppem" if ppem else "location" if loc is not None else "default"},
+                                  "spec %s (repacker=%s, compaction=%d, ppem=%s, location=%s): text %s shapes %s, the spec says %s"
+                                  % (case["name"], REPS[case["rep"]], case["level"], ppem, loc, t, g, w),
+                                  {"spec": case["name"], "size": case["size"], "repacker": repr(REPS[case["rep"]]), "compaction": case["level"],
+                                   "ppem": ppem, "location": loc, "text": t, "spec_says": w, "harfbuzz": g, "seed": case["seed"]})
     if fired:
         ctx.nontrivial("spec|%s|s%d|%s|c%d|%s" % (case["name"], case["size"], case["rep"], case["level"], "+".join(sorted(summ))))
+    if len(settings) > 1:
+        ctx.note("spec texts shaped at a ppem (Device tables act)", sum(1 for p, l in settings if p))
+        ctx.note("spec texts shaped at a non-default axis location", sum(1 for p, l in settings if l is not None))
     ctx.sample = {"spec": case["name"], "size": case["size"], "repacker": repr(REPS[case["rep"]]), "compaction": case["level"],
-                  "glyphs": len(m["order"]), "table_bytes_total_font": size, "texts": len(texts), "texts_where_rules_fire": fired,
+                  "glyphs": len(m["order"]), "table_bytes_total_font": len(data), "texts": ntexts, "texts_where_rules_fire": fired,
+                  "settings (ppem, axis location)": settings[:12],
                   "overflow_level_targeted": S.LEVEL_OF.get(case["name"]), "events": sorted(summ)}
 
 
